@@ -240,11 +240,10 @@ func NewFloatFromString(typ *types.FloatType, s string) (*Float, error) {
 			}
 		}
 	}
-	const base = 10
 	switch typ.Kind {
 	case types.FloatKindHalf:
 		const precision = 11
-		x, _, err := big.ParseFloat(s, base, precision, big.ToNearestEven)
+		x, err := parseDecimal(s, precision)
 		if err != nil {
 			return nil, errors.WithStack(err)
 		}
@@ -255,7 +254,7 @@ func NewFloatFromString(typ *types.FloatType, s string) (*Float, error) {
 		return c, nil
 	case types.FloatKindFloat:
 		const precision = 24
-		x, _, err := big.ParseFloat(s, base, precision, big.ToNearestEven)
+		x, err := parseDecimal(s, precision)
 		if err != nil {
 			return nil, errors.WithStack(err)
 		}
@@ -266,7 +265,7 @@ func NewFloatFromString(typ *types.FloatType, s string) (*Float, error) {
 		return c, nil
 	case types.FloatKindDouble:
 		const precision = 53
-		x, _, err := big.ParseFloat(s, base, precision, big.ToNearestEven)
+		x, err := parseDecimal(s, precision)
 		if err != nil {
 			return nil, errors.WithStack(err)
 		}
@@ -278,6 +277,39 @@ func NewFloatFromString(typ *types.FloatType, s string) (*Float, error) {
 	default:
 		panic(fmt.Errorf("support for floating-point kind %v not yet implemented", typ.Kind))
 	}
+}
+
+// parseDecimal returns the value of the decimal floating-point literal s as
+// LLVM reads it: the nearest double (ties to even, with the exponent range and
+// the subnormals of a double), which is then rounded to the type (prec is 11
+// for half, 24 for float and 53 for double).
+//
+// big.ParseFloat is used to check the syntax only. It rounds the digits of the
+// mantissa to the precision before it scales them by the power of ten, and the
+// scaling rounds again, so that a literal with more digits than the precision
+// holds may end up one unit in the last place off (e.g. a literal just above
+// the midpoint of two doubles was read as the lower one).
+func parseDecimal(s string, prec uint) (*big.Float, error) {
+	const base = 10
+	if _, _, err := big.ParseFloat(s, base, prec, big.ToNearestEven); err != nil {
+		return nil, err
+	}
+	f64, err := strconv.ParseFloat(s, 64)
+	if err != nil {
+		// Out of range literals are read as infinity (or zero).
+		if e, ok := err.(*strconv.NumError); !ok || e.Err != strconv.ErrRange {
+			return nil, err
+		}
+	}
+	if prec == 24 {
+		f64 = float64(float32(f64))
+	}
+	if math.IsNaN(f64) {
+		return nil, errors.Errorf("invalid decimal floating-point literal %q", s)
+	}
+	x := big.NewFloat(f64)
+	x.SetPrec(prec)
+	return x, nil
 }
 
 // String returns the LLVM syntax representation of the constant as a type-value
